@@ -171,45 +171,8 @@ pub(crate) mod verif_c08 {
   }
 }
 
-// ---- bounded sequence harnesses over the real cache: ONE instance, <= 3 operations ------------
-#[cfg(kani)]
-mod verif_c08_seq {
-  use serde::{Deserialize, Serialize};
-
-  use super::*;
-
-  // all values have the same (unit) key: one instance
-  #[derive(Clone, PartialEq, Serialize, Deserialize)]
-  pub struct D1(pub u8);
-  impl Keyed for D1 {
-    type K = ();
-    fn key(&self) {}
-  }
-
-  fn any_d1_sample() -> Sample<D1, ()> {
-    if kani::any() { Sample::Value(D1(kani::any())) } else { Sample::Dispose(()) }
-  }
-
-  // add one sample, take everything, take again
-  #[kani::proof]
-  #[kani::unwind(3)]
-  fn c08_seq_add_take() {
-    let mut cache = DataSampleCache::<D1>::new(QosPolicies::qos_none());
-    let s = any_d1_sample();
-    let is_value = matches!(s, Sample::Value(_));
-    let ts = Timestamp::from_ticks(kani::any());
-    cache.add_sample(s, GUID::GUID_UNKNOWN, SequenceNumber::new(1), ts, WriteOptions::default());
-    let keys = cache.select_keys_for_access(ReadCondition::any());
-    assert!(keys.len() == 1);
-    let got = cache.take_by_keys(&keys);
-    assert!(got.len() == 1);
-    let si = got[0].sample_info();
-    assert!(si.sample_state() == SampleState::NotRead);
-    assert!(si.view_state() == ViewState::New);
-    assert!((si.instance_state() == InstanceState::Alive) == is_value);
-    assert!(si.generation_rank() == 0 && si.absolute_generation_rank() == 0 && si.sample_rank() == 0);
-    // taken at most once: it is gone
-    let keys2 = cache.select_keys_for_access(ReadCondition::any());
-    assert!(keys2.is_empty());
-  }
-}
+// A bounded sequence harness over the real cache (ONE instance of a unit-keyed type, one add_sample,
+// select_keys_for_access, take_by_keys, select again; unwind 3) was tried and is NOT included:
+// symbolic execution of the std BTreeMap/BTreeSet node code did not finish within 600 s (4.7 GB and
+// growing at 340 s). add_sample / select_* / read_by_keys / take_by_keys are listed as unverified
+// in obligations/C08.json.
